@@ -19,7 +19,10 @@ type SpecCtx struct {
 	pkg      string
 	at       *ssa.BasicBlock
 	override map[ssa.Value]Val
+	atIdx    int // instruction index inside `at` up to which local definitions are visible (0 = block start)
 	inOld    bool
+	noLemma  bool
+	inFun    *FunDef
 }
 
 type SpecError struct{ Msg string }
@@ -103,26 +106,36 @@ func (c *SpecCtx) resolveLocal(name string) (Val, bool) {
 	if fr == nil || c.at == nil {
 		return Val{}, false
 	}
-	// 1. phi of the block named after the variable
-	for _, in := range c.at.Instrs {
-		phi, ok := in.(*ssa.Phi)
-		if !ok {
-			break
-		}
-		if phi.Comment == name {
-			if v, ok := c.override[phi]; ok {
-				return v, true
-			}
-			return fr.val(phi), true
-		}
-	}
-	// 2. nearest dominating debug reference
+	// the latest definition visible at (block, atIdx): debug references inside the block before atIdx,
+	// then the block's phi named after the variable, then the nearest dominating debug reference
 	var best *dbgRef
 	for i := range fr.dbg[name] {
 		d := &fr.dbg[name][i]
-		if d.block == c.at || d.block.Dominates(c.at) {
-			if best == nil || best.block.Dominates(d.block) {
+		if d.block == c.at && d.idx < c.atIdx {
+			if best == nil || d.idx > best.idx {
 				best = d
+			}
+		}
+	}
+	if best == nil {
+		for _, in := range c.at.Instrs {
+			phi, ok := in.(*ssa.Phi)
+			if !ok {
+				break
+			}
+			if phi.Comment == name {
+				if v, ok := c.override[phi]; ok {
+					return v, true
+				}
+				return fr.val(phi), true
+			}
+		}
+		for i := range fr.dbg[name] {
+			d := &fr.dbg[name][i]
+			if d.block != c.at && d.block.Dominates(c.at) {
+				if best == nil || best.block.Dominates(d.block) && (best.block != d.block || d.idx > best.idx) {
+					best = d
+				}
 			}
 		}
 	}
@@ -526,6 +539,10 @@ func (c *SpecCtx) evalCall(n *SNode) Val {
 		x := c.eval(n.Args[0])
 		return scalar(tInt, sx("-", sx("to_int", sx("-", x.S))))
 	}
+	// recursive spec function
+	if fd := c.lookupFun(n.Name); fd != nil {
+		return c.evalFun(fd, n)
+	}
 	// predicate (macro)
 	pd := e.P.Preds[c.pkg+"."+n.Name]
 	if strings.Contains(n.Name, ".") {
@@ -727,4 +744,162 @@ func (c *SpecCtx) evalSplitL(n *SNode) []splitPart {
 		}
 	}
 	return []splitPart{{c.evalBool(n), n.Text()}}
+}
+
+// ---------------------------------------------------------------------------
+// recursive spec functions and lemmas
+// ---------------------------------------------------------------------------
+
+type funInfo struct {
+	name  string
+	arrs  []string // heap arrays the body reads (names), in parameter order
+	sorts []string
+	sort  string
+}
+
+const arrsPlaceholder = "\x00ARRS\x00"
+
+func (c *SpecCtx) lookupFun(name string) *FunDef {
+	if strings.Contains(name, ".") {
+		return c.e.P.Funs[name]
+	}
+	if fd := c.e.P.Funs[c.pkg+"."+name]; fd != nil {
+		return fd
+	}
+	return nil
+}
+
+func resultSort(fd *FunDef) (string, types.Type) {
+	if fd.Result == "bool" {
+		return "Bool", tBool
+	}
+	return "Int", tInt
+}
+
+func (e *Enc) funDef(fd *FunDef) *funInfo {
+	key := fd.Pkg + "." + fd.Name
+	if fi, ok := e.funDefs[key]; ok {
+		return fi
+	}
+	srt, _ := resultSort(fd)
+	fi := &funInfo{name: q("fun." + key), sort: srt}
+	e.funDefs[key] = fi // (recursion guard)
+	fh := &Heap{m: map[string]string{}, alloc: q("alloc@0"), dirty: map[string]int{}, formal: &formalHeap{prefix: "f!", used: map[string]string{}}}
+	names := map[string]Val{}
+	var pdecl []string
+	for _, p := range fd.Params {
+		t := e.P.parseType(fd.Pkg, p.Type)
+		cs := flatten(t)
+		if len(cs) != 1 {
+			panic(specErr("fun %s: parameter %s must be scalar", fd.Name, p.Name))
+		}
+		sym := q("p!" + p.Name)
+		names[p.Name] = scalar(t, sym)
+		pdecl = append(pdecl, fmt.Sprintf("(%s %s)", sym, cs[0].Sort))
+	}
+	ctx := &SpecCtx{e: e, names: names, heap: fh, old: fh, pkg: fd.Pkg, noLemma: true, inFun: fd}
+	body := ctx.eval(fd.Body)
+	if body.K != kScalar {
+		panic(specErr("fun %s: scalar body expected", fd.Name))
+	}
+	var adecl, aref []string
+	for _, n := range fh.formal.order {
+		fi.arrs = append(fi.arrs, n)
+		fi.sorts = append(fi.sorts, fh.formal.used[n])
+		adecl = append(adecl, fmt.Sprintf("(%s %s)", q("f!"+n), fh.formal.used[n]))
+		aref = append(aref, q("f!"+n))
+	}
+	bt := strings.ReplaceAll(body.S, arrsPlaceholder, strings.Join(aref, " "))
+	e.decls = append(e.decls, fmt.Sprintf("(define-fun-rec %s (%s) %s %s)", fi.name, strings.Join(append(adecl, pdecl...), " "), srt, bt))
+	return fi
+}
+
+func (c *SpecCtx) evalFun(fd *FunDef, n *SNode) Val {
+	e := c.e
+	srt, rt := resultSort(fd)
+	_ = srt
+	if len(n.Args) != len(fd.Params) {
+		panic(specErr("fun %s expects %d arguments", fd.Name, len(fd.Params)))
+	}
+	var args []Val
+	var ats []string
+	for _, a := range n.Args {
+		v := c.eval(a)
+		if v.K != kScalar {
+			panic(specErr("fun %s: scalar arguments expected", fd.Name))
+		}
+		args = append(args, v)
+		ats = append(ats, v.S)
+	}
+	if c.inFun == fd && c.curHeap().formal != nil && !c.curHeap().formal.declare {
+		// recursive call inside the definition: same formal arrays
+		return scalar(rt, "("+q("fun."+fd.Pkg+"."+fd.Name)+" "+arrsPlaceholder+" "+strings.Join(ats, " ")+")")
+	}
+	fi := e.funDef(fd)
+	h := c.curHeap()
+	var arrs []string
+	for i, an := range fi.arrs {
+		arrs = append(arrs, e.harr(h, an, fi.sorts[i]))
+	}
+	term := "(" + fi.name + " " + strings.Join(append(arrs, ats...), " ") + ")"
+	if len(arrs)+len(ats) == 0 {
+		term = fi.name
+	}
+	if !c.noLemma {
+		c.instantiateLemmas(fd, args, ats)
+	}
+	return scalar(rt, term)
+}
+
+func (c *SpecCtx) hasBound(ts []string) bool {
+	for _, b := range c.bound {
+		if b.K != kScalar || !strings.HasPrefix(b.S, "|") {
+			continue
+		}
+		for _, t := range ts {
+			if strings.Contains(t, b.S) {
+				return true
+			}
+		}
+	}
+	return false
+}
+
+// instantiateLemmas assumes every proved lemma declared "for" this function at the given arguments, in the
+// current (and pre-) heap. Lemmas are proved once per run (see verifyLemma); an instance is a consequence.
+func (c *SpecCtx) instantiateLemmas(fd *FunDef, args []Val, ats []string) {
+	e := c.e
+	if c.hasBound(ats) {
+		return
+	}
+	for li, ld := range e.P.Lemmas {
+		if ld.For != fd.Name || ld.Pkg != fd.Pkg || len(ld.Params) != len(args) {
+			continue
+		}
+		if e.lemmaLimit >= 0 && li >= e.lemmaLimit {
+			continue
+		}
+		h, old := c.curHeap(), c.old
+		if c.inOld {
+			old = c.old
+		}
+		var hk []string
+		fi := e.funDef(fd)
+		for i, an := range fi.arrs {
+			hk = append(hk, e.harr(h, an, fi.sorts[i]), e.harr(old, an, fi.sorts[i]))
+		}
+		key := ld.Name + "|" + strings.Join(ats, ",") + "|" + strings.Join(hk, ",")
+		if at, ok := e.lemmaSeen[key]; ok && at <= len(e.lines) {
+			continue
+		}
+		names := map[string]Val{}
+		for i, p := range ld.Params {
+			names[p.Name] = args[i]
+		}
+		lc := &SpecCtx{e: e, names: names, heap: h, old: old, pkg: ld.Pkg, noLemma: true}
+		fact := lc.evalBool(ld.Body)
+		e.assume("true", fact)
+		e.lemmaSeen[key] = len(e.lines)
+		e.usedLemmas[ld.Pkg+"."+ld.Name] = true
+	}
 }
